@@ -114,3 +114,114 @@ fn c14_reserved() {
     assert!(ns.is_reserved() == by_bounds);
     assert!(ns.is_reserved() == ((a[0] == 0 && all_eq(&a[1..28], 0)) || a[0] == 255));
 }
+
+// ---------------------------------------------------------------------------------------------------------------
+// C15: shwap identifiers <-> bytes <-> CIDs
+// ---------------------------------------------------------------------------------------------------------------
+use crate::eds::{EdsId, EDS_ID_SIZE};
+use crate::namespace_data::{NamespaceDataId, NAMESPACE_DATA_ID_SIZE};
+use crate::row::{RowId, ROW_ID_CODEC, ROW_ID_MULTIHASH_CODE, ROW_ID_SIZE};
+use crate::row_namespace_data::{RowNamespaceDataId, ROW_NAMESPACE_DATA_CODEC, ROW_NAMESPACE_DATA_ID_MULTIHASH_CODE, ROW_NAMESPACE_DATA_ID_SIZE};
+use crate::sample::{SampleId, SAMPLE_ID_CODEC, SAMPLE_ID_MULTIHASH_CODE};
+// sample.rs keeps its size constant private: row id (10) + column index (2)
+const SAMPLE_ID_SIZE: usize = ROW_ID_SIZE + 2;
+use bytes::BytesMut;
+use cid::CidGeneric;
+use multihash::Multihash;
+
+// error paths format messages (`e.to_string()`); the text is irrelevant here
+fn stub_format(_args: core::fmt::Arguments<'_>) -> String { String::new() }
+
+// EdsId: every 8-byte buffer decodes iff the big-endian height is non-zero; decode(encode(id)) == id; other lengths rejected
+#[kani::proof]
+#[kani::unwind(18)]
+fn c15_eds_id() {
+    let buf: [u8; 16] = kani::any();
+    let n: usize = kani::any();
+    kani::assume(n <= 16);
+    let r = EdsId::decode(&buf[..n]);
+    if n != EDS_ID_SIZE { assert!(r.is_err()); }
+    else {
+        let h = u64::from_be_bytes([buf[0], buf[1], buf[2], buf[3], buf[4], buf[5], buf[6], buf[7]]);
+        assert!(r.is_ok() == (h != 0));
+        if let Ok(id) = r { assert!(id.block_height() == h); }
+    }
+    let h: u64 = kani::any();
+    let r = EdsId::new(h);
+    assert!(r.is_ok() == (h != 0));
+    if let Ok(id) = r {
+        let mut out = BytesMut::new();
+        id.encode(&mut out);
+        assert!(out.len() == EDS_ID_SIZE);
+        assert!(&out[..] == &h.to_be_bytes()[..]);
+        assert!(EdsId::decode(&out[..]).ok() == Some(id));
+    }
+}
+
+// RowId / SampleId: bytes round trip for every valid id, rejection of zero heights and wrong lengths
+#[kani::proof]
+#[kani::unwind(18)]
+fn c15_row_and_sample_id_bytes() {
+    let row: u16 = kani::any(); let col: u16 = kani::any(); let h: u64 = kani::any();
+    let r = RowId::new(row, h);
+    assert!(r.is_ok() == (h != 0));
+    let s = SampleId::new(row, col, h);
+    assert!(s.is_ok() == (h != 0));
+    if let (Ok(rid), Ok(sid)) = (r, s) {
+        let mut out = BytesMut::new();
+        rid.encode(&mut out);
+        assert!(out.len() == ROW_ID_SIZE);
+        assert!(RowId::decode(&out[..]).ok() == Some(rid));
+        let mut out2 = BytesMut::new();
+        sid.encode(&mut out2);
+        assert!(out2.len() == SAMPLE_ID_SIZE);
+        let back = SampleId::decode(&out2[..]);
+        assert!(back.ok() == Some(sid));
+        assert!(sid.row_index() == row && sid.column_index() == col && sid.block_height() == h);
+    }
+    // arbitrary buffers
+    let buf: [u8; 16] = kani::any();
+    let n: usize = kani::any();
+    kani::assume(n <= 16);
+    let d = RowId::decode(&buf[..n]);
+    if n != ROW_ID_SIZE { assert!(d.is_err()); } else {
+        let hh = u64::from_be_bytes([buf[0], buf[1], buf[2], buf[3], buf[4], buf[5], buf[6], buf[7]]);
+        assert!(d.is_ok() == (hh != 0));
+        if let Ok(id) = d { assert!(id.block_height() == hh && id.index() == u16::from_be_bytes([buf[8], buf[9]])); }
+    }
+    let d = SampleId::decode(&buf[..n]);
+    if n != SAMPLE_ID_SIZE { assert!(d.is_err()); } else {
+        let hh = u64::from_be_bytes([buf[0], buf[1], buf[2], buf[3], buf[4], buf[5], buf[6], buf[7]]);
+        assert!(d.is_ok() == (hh != 0));
+        if let Ok(id) = d { assert!(id.block_height() == hh && id.row_index() == u16::from_be_bytes([buf[8], buf[9]]) && id.column_index() == u16::from_be_bytes([buf[10], buf[11]])); }
+    }
+}
+
+// RowId / SampleId: CID round trip and rejection of foreign codecs, multihash codes and sizes
+#[kani::proof]
+#[kani::unwind(18)]
+#[kani::stub(alloc::fmt::format, stub_format)]
+fn c15_row_and_sample_id_cid() {
+    let row: u16 = kani::any(); let col: u16 = kani::any(); let h: u64 = kani::any();
+    kani::assume(h != 0);
+    let rid = RowId::new(row, h).unwrap();
+    let cid: CidGeneric<ROW_ID_SIZE> = rid.into();
+    assert!(cid.codec() == ROW_ID_CODEC && cid.hash().code() == ROW_ID_MULTIHASH_CODE && cid.hash().size() as usize == ROW_ID_SIZE);
+    assert!(RowId::try_from(cid).ok() == Some(rid));
+    let sid = SampleId::new(row, col, h).unwrap();
+    let cid: CidGeneric<SAMPLE_ID_SIZE> = sid.into();
+    assert!(cid.codec() == SAMPLE_ID_CODEC && cid.hash().code() == SAMPLE_ID_MULTIHASH_CODE);
+    assert!(SampleId::try_from(cid).ok() == Some(sid));
+    // a CID with an arbitrary codec / multihash code / digest: accepted only with the right codec, code, size and a non-zero height
+    let codec: u64 = kani::any(); let code: u64 = kani::any();
+    let digest: [u8; 12] = kani::any();
+    let n: usize = kani::any();
+    kani::assume(n <= 12);
+    let mh = Multihash::<12>::wrap(code, &digest[..n]).unwrap();
+    let cid = CidGeneric::<12>::new_v1(codec, mh);
+    let hh = u64::from_be_bytes([digest[0], digest[1], digest[2], digest[3], digest[4], digest[5], digest[6], digest[7]]);
+    let as_row = RowId::try_from(cid);
+    assert!(as_row.is_ok() == (codec == ROW_ID_CODEC && code == ROW_ID_MULTIHASH_CODE && n == ROW_ID_SIZE && hh != 0));
+    let as_sample = SampleId::try_from(cid);
+    assert!(as_sample.is_ok() == (codec == SAMPLE_ID_CODEC && code == SAMPLE_ID_MULTIHASH_CODE && n == SAMPLE_ID_SIZE && hh != 0));
+}
